@@ -41,6 +41,12 @@ VALUES = [
      "frozenset([frozenset({'w'}), frozenset({'z'}), frozenset({'y', 'x'})])"),
     ("partial", "{(frozenset({'p'}), 1), (frozenset({'q'}), 1), (frozenset({'r'}), 0)}",
      "{(frozenset({'r'}), 0), (frozenset({'q'}), 1), (frozenset({'p'}), 1)}"),
+    ("partial", "{frozenset({'a', 'd'}), frozenset({'b', 'c'}), frozenset({'e', 'f', 'g'})}",
+     "{frozenset(['g', 'f', 'e']), frozenset(['c', 'b']), frozenset(['d', 'a'])}"),
+    ("partial", "{(frozenset({'p', 'q'}), 1), (frozenset({'r', 's'}), 1), (frozenset({'t', 'u'}), 0)}",
+     "{(frozenset(['u', 't']), 0), (frozenset(['s', 'r']), 1), (frozenset(['q', 'p']), 1)}"),
+    ("partial", "frozenset({frozenset({10, 20}), frozenset({30, 40}), frozenset({'x', 'yy'})})",
+     "frozenset([frozenset(['yy', 'x']), frozenset([40, 30]), frozenset([20, 10])])"),
     ("nested", "{'k': {3, 1}, 'j': {'b', 'a'}}", "dict(k=set([1, 3]), j=set(['a', 'b']))"),
     ("nested", "[({'b', 'a'},), frozenset({'c', 'd'})]", "[(set(['a', 'b']),), frozenset(['d', 'c'])]"),
     ("dict", "{'b': 1, 'a': 2, 'c': {'z': 0, 'y': 1}}", "dict([('b', 1), ('a', 2), ('c', dict(z=0, y=1))])"),
